@@ -1384,6 +1384,7 @@ func (h *BlockHeader) DecodeFrom(d *Decoder) {
 
 // DecodeFrom implements types.DecoderFrom.
 func (b *V1Block) DecodeFrom(d *Decoder) {
+	b.V2 = nil // not part of the v1 encoding; clear any value left in a reused receiver
 	b.ParentID.DecodeFrom(d)
 	b.Nonce = d.ReadUint64()
 	b.Timestamp = d.ReadTime()
